@@ -15,7 +15,8 @@ META = {
     'bounds': {
         'quick': 'presence: two overlapping windows of 7 of the 13 settable properties, each with the '
                  'remaining properties all absent and all present (4 x 128 patterns), representative '
-                 'values incl. priority 0 and headers {}; body size 0..2^64-1, channel 0..65535; values: '
+                 'values incl. priority 0 and headers {}; the same after an earlier decode of a header '
+                 'with every property set (2 x 32 patterns); body size 0..2^64-1, channel 0..65535; values: '
                  'each property alone with a symbolic value (octet 0..255, delivery_mode any integer, '
                  'short strings <= 1 code point, headers {k: n}, timestamp any instant 0..2^32-1 with '
                  'any microsecond)',
@@ -76,9 +77,17 @@ def roundtrip(ch, size, want):
 ''' % (NAMES,)
 
 
-def _presence_part(name, window, others_present, timeout):
+def _presence_part(name, window, others_present, timeout, history=False):
     params = [('ch', 'int'), ('size', 'int')] + [('p_' + n, 'bool') for n in window]
     lines = ['def body(%s):' % ', '.join(p for p, _ in params), '    want = {}']
+    if history:
+        # an earlier header frame with every property set was decoded by this process: what the next
+        # decode returns must depend on its own bytes only (sixth seeded round, H02_1 / H06_1)
+        lines.append('    full = {%s}' % ', '.join('%r: %s' % (n, REPS[n]) for n in NAMES))
+        lines.append('    earlier = frame.unmarshal(hx.fix(frame.marshal(header.ContentHeader(0, 7, '
+                     'commands.Basic.Properties(**full)), 1)))')
+        lines.append('    if not props_equal(earlier[2].properties, full):')
+        lines.append('        return False')
     for n in NAMES:
         if n in window:
             lines.append('    want[%r] = %s if p_%s else None' % (n, REPS[n], n))
@@ -89,8 +98,9 @@ def _presence_part(name, window, others_present, timeout):
     rep.update({'p_' + n: (i % 2 == 0) for i, n in enumerate(window)})
     return Part(name=name, params=params, pre=['0 <= ch <= 65535', '0 <= size < 2**64'],
                 body='\n'.join(lines), prelude=PRE, timeout=timeout, family='presence',
-                bound='presence of %s symbolic, other properties %s; body size and channel symbolic'
-                      % (', '.join(window), 'present' if others_present else 'absent'),
+                bound='presence of %s symbolic, other properties %s; body size and channel symbolic%s'
+                      % (', '.join(window), 'present' if others_present else 'absent',
+                         '; after an earlier decode of a header with every property set' if history else ''),
                 rep=rep)
 
 
@@ -151,6 +161,8 @@ def partitions(tier, seed):
         for nm, w in (('a', wa), ('b', wb)):
             parts.append(_presence_part('presence_%s_rest_absent' % nm, w, False, 250))
             parts.append(_presence_part('presence_%s_rest_present' % nm, w, True, 250))
+        parts.append(_presence_part('presence_a_after_full_header', wa[0:5], False, 250, history=True))
+        parts.append(_presence_part('presence_b_after_full_header', wb[2:7], False, 250, history=True))
     else:
         # all 8192 patterns: 6 fixed bits per partition (64 partitions) x 7 symbolic bits
         import itertools
@@ -164,6 +176,8 @@ def partitions(tier, seed):
             p.body = body
             p.bound = 'presence pattern %s for %s, remaining 7 symbolic' % (bits, fixed_names)
             parts.append(p)
+        parts.append(_presence_part('presence_a_after_full_header', NAMES[0:7], False, 480, history=True))
+        parts.append(_presence_part('presence_b_after_full_header', NAMES[6:13], False, 480, history=True))
     for prop, wtype in spec.PROPERTIES:
         if prop == 'cluster_id':
             continue
